@@ -39,7 +39,7 @@ LEVEL_NOTE = "Trusts the canonical snapshot to expose every header field and eve
 TECHNIQUE = "runtime monitoring: icontract snapshot/ensure frame condition on LASFile.write + consecutive-output comparison + independent output tokeniser"
 
 _ctx = None
-EDITS = ["none", "index_replace", "index_inplace", "other_curve", "header", "insert_index", "delete_index", "index_tiny_shift", "index_tiny_inplace", "stale_duplicates", "index_integer_dtype"]
+EDITS = ["none", "index_replace", "index_inplace", "other_curve", "header", "insert_index", "delete_index", "index_tiny_shift", "index_tiny_inplace", "stale_duplicates", "index_integer_dtype", "all_float32"]
 CONSTR = ["scratch", "read", "wrong_stop"]
 
 
@@ -285,6 +285,14 @@ def construct(ctx, case):
         dt = [np.uint16, np.int16, np.uint8, np.int64, np.uint32][case.get("inplace_pos", 0) % 5 if "seed" not in case else case["seed"] % 5]
         top = 250 if dt is np.uint8 else 30000
         las.curves[0].data = np.array([top - (top // (n + 1)) * i for i in range(n)], dtype=dt)
+        triggered = True
+    elif edit == "all_float32":
+        # a table held in single precision throughout (what reading with dtypes=float32, or a float32 array from elsewhere, gives):
+        # index samples that are not exact in float32
+        if any(np.asarray(c.data).dtype.kind != "f" for c in las.curves):
+            return None, "text curve"
+        for j, c in enumerate(las.curves):
+            c.data = (np.asarray(c.data, dtype=np.float32) if j else np.array([2500.1 + 0.15 * i for i in range(n)], dtype=np.float32))
         triggered = True
     elif edit == "stale_duplicates":
         # one member of a duplicate family removed (the survivors keep ':2', ':3') and a curve renamed onto an existing name:
